@@ -200,6 +200,22 @@ Definition run_v2 {V} (pinned : bool) (sh : shape) (n : nat) (pages : list (page
   read_col_v2 (if pinned then true else call_null (shape_path sh)) (sch_max_def (shape_path sh))
               (empty_arr n) 0 pages.
 
+(* core.read_data_page_v2: which branch of the if/elif chain handles a page of a REPEATED leaf
+   (max_rep > 0, object output, so into0 = into = False; use_cat is False for LIST/MAP columns).
+   `pinned` = the chain of the pinned tree: every PLAIN page fell into the flat branch
+   ("PLAIN, but with nulls or not in-place conversion": assign[num:num+num_values][~nulls] = ...),
+   which indexes rows by level entries; the repaired chain tests max_rep first. *)
+Inductive venc := EPlain | EDict | ERle | EDelta | EOther.
+Inductive v2branch := BAssemble | BFlat | BUnsupported.
+Definition v2_branch (pinned : bool) (max_rep : N) (enc : venc) : v2branch :=
+  match enc with
+  | EOther => BUnsupported                              (* raise NotImplementedError *)
+  | EPlain => if pinned then BFlat else if 0 <? max_rep then BAssemble else BFlat
+  | ERle => BFlat                                       (* RLE booleans decoded straight into the output *)
+  | EDict => if 0 <? max_rep then BAssemble else BFlat  (* "DICTIONARY to be de-referenced": if max_rep: _assemble_objects *)
+  | EDelta => BFlat
+  end.
+
 (* core.read_row_group_arrays: out[name][:] = [dict(zip(k, v)) if k is not None else None ...]
    (zip stops at the shorter list; a None value list with a non-None key list is a TypeError) *)
 Section Zip.
